@@ -49,6 +49,8 @@ def specs(tier):
             continue
         out.append([dict(pf=pf, nx=nx, ny=ny, side=side, off=None)])
     for side in ["left", "right"]:
+        # tandem surfaces of identical mesh shape (anything keyed on the shape would be shared)
+        out.append([dict(pf="swept", nx=3, ny=3, side=side, off=None), dict(pf="rect", nx=3, ny=3, side=side, off=[5.0, 0.0, 0.7], span=6.0, chord=0.9)])
         if tier == "quick":
             # nx = 4 is the smallest mesh with an interior chordwise panel row
             out.append([dict(pf="twdi", nx=4, ny=3, side=side, off=None)])
